@@ -107,7 +107,7 @@ def run(ctx):
         cases, _ = sc.slice_cases(cases, 6000 if quick else None, ctx.seed + 1)
         run_state_family(ctx, cases, "state-level sequences len 2 path_style=%s" % ps)
         sim = gen_state(ctx, 5 if quick else 7, [0, 1], ps, simulate=(8 if quick else 60, ctx.seed + 3))
-        sim, _ = sc.slice_cases(sim, 3000 if quick else 40000, ctx.seed + 2)
+        sim, _ = sc.slice_cases(sim, 3000 if quick else 15000, ctx.seed + 2)
         run_state_family(ctx, sim, "state-level sequences simulated path_style=%s" % ps)
     flavors = ["oid/oid", "path/oidf"] if quick else ["oid/oid", "path/oidf", "oidf/path", "path/path"]
     fams = [("st_two2", [1, 2], 2, None, 500 if quick else None), ("st_sim4", [1, 2], 4, "sim", 300 if quick else 5000)]
